@@ -111,6 +111,18 @@ pub fn fatal_huge_alloc(size: usize) -> ! {
   unsafe { libc::_exit(3) }
 }
 
+/// every stack check gets its own range of domain ids (= UDP port ranges), so that two checks
+/// running at the same time on one box do not discover each other's participants
+fn domain_base(id: &str) -> usize {
+  match id {
+    "C11" => 10,
+    "C12" => 40,
+    "C07" => 70,
+    "C17" => 100,
+    _ => 130,
+  }
+}
+
 pub const CPU_BUDGET_S: f64 = 2.0;
 pub const WALL_STALL_S: f64 = 90.0;
 
@@ -177,7 +189,7 @@ where
             .arg("--shard-out")
             .arg(&outp)
             .env("VERIF_SEED", args.seed.to_string())
-            .env("VERIF_DOMAIN", (10 + k).to_string())
+            .env("VERIF_DOMAIN", (domain_base(&args.id) + k).to_string())
             .status();
           let parsed: Option<ShardOut> = std::fs::read_to_string(&outp).ok().and_then(|s| serde_json::from_str(&s).ok());
           let _ = std::fs::remove_file(&outp);
